@@ -8,7 +8,7 @@ import vcommon as V
 
 META = dict(
     text="Lean 4 theorems (Props/C13.lean) prove for the model of the lexer and parser, for every text, every cutting of it into pieces (any number, empty pieces, cuts inside tokens/strings/comments/operators) and every earlier history of the parser, that the final status and the expression list equal those of the text delivered whole to a fresh parser (parse_chunks_eq_whole, reset_forgets via a simulation proved for EVERY parser program over the two input-reading instructions), that feeding the lexer in two parts is feeding the concatenation (lex_chunk), and that end of input never drops a pending atom or line comment (last_token_kept). The model is tied to zygo/lexer.go and zygo/parser.go by regenerated tables (regexp sources, enums, EscapeChar, every Lexer field is assigned in Reset) and by differential testing of the complete lexer state after every rune and of parse results at every cut position. Unit tests pause the parser at two hand-picked places; the theorem covers all of them.",
-    note="Trusted: Lean kernel; axioms propext/Classical.choice/Quot.sound; the hand-written model (tied by the lex/parse correspondence = testing, and by table theorems); regexp recognisers are hand-written for the regenerated source strings; strconv.ParseFloat is re-implemented exactly and compared bit for bit. `more iff unfinished` is stated in full (MoreIffUnfinished) but only checked on generated inputs (impl vs Spec.Unfinished), not proved. Known finding: a lone top-level `-`/`+` answers 'more' (the ±Inf look-ahead).",
+    note="Trusted: Lean kernel; axioms propext/Classical.choice/Quot.sound; the hand-written model (tied by the lex/parse correspondence = testing, and by table theorems); regexp recognisers are hand-written for the regenerated source strings; strconv.ParseFloat is re-implemented exactly and compared bit for bit. `more iff unfinished` is stated in full (MoreIffUnfinished) but only checked on generated inputs (impl vs Spec.Unfinished), not proved. A trailing top-level `-`/`+` is an unfinished PREFIX (the next token may be Inf; chunk independence forces the wait) but a finished text (fix C13-02: lone_sign_fixed, sign_at_end_of_finished_input).",
     technique="Lean 4 proof over an executable lexer/parser model (free-monad parser programs, abstraction simulation) + regenerated tables + model/implementation correspondence at every cut position",
     design_ref="DESIGN.md §7 C13",
 )
